@@ -211,7 +211,7 @@ func JudgeC15(r *Record) {
 					}
 				}
 			}
-			if last == "expired" {
+			if strings.HasPrefix(last, "expired") {
 				r.add("expired-action-used", r.theme(), "%s handed to the adapter although the latest batch answer carried an action that had already expired", oid)
 			}
 		}
